@@ -54,5 +54,5 @@ XExpect(v) ==
     ELSE v
 XEmit == LET r == Doc(text') IN
          PrintT(ToJson([t |-> text', k |-> IF Valid(r) THEN "doc" ELSE "any", v |-> IF Valid(r) THEN XExpect(r.v) ELSE [z |-> 0],
-                        st |-> sm'.st]))
+                        fin |-> IF Valid(r) THEN r.p - 1 ELSE 0, act |-> sm.st \o ">" \o sm'.st]))
 ===============================================================================
